@@ -162,13 +162,18 @@ def check_config(ctx, F, tag):
     vnames = [v["name"] for v in modeadt["variants"]]
     if sorted(vnames) != ["Mutable", "ReadOnly"]:
         raise Undecided("anchor lost: MappingMode variants %s" % vnames)
-    prot_p = operand_place(mcall["args"][2])
-    prot_l = None
-    if prot_p is not None:
-        t = new.term_of_operand(mcall["args"][2])
+    def arm_values(t):
+        """Per-arm values of a term that is a local assigned once in each arm of one switch, or one component of such a local
+        holding a tuple (`let (write, prot) = match mode { .. }`)."""
+        t = strip_casts(t)
         if t[0] == "var":
-            prot_l = t[1]
-    arms = switch_arm_defs(new, prot_l) if prot_l is not None else None
+            return switch_arm_defs(new, t[1])
+        if t[0] == "field" and strip_casts(t[1])[0] == "var" and str(t[2]).isdigit():
+            arms = switch_arm_defs(new, strip_casts(t[1])[1])
+            if arms and all(v[0] == "tuple" and int(t[2]) < len(v[1]) for v in arms[1].values()):
+                return arms[0], {k: v[1][int(t[2])] for k, v in arms[1].items()}
+        return None
+    arms = arm_values(new.term_of_operand(mcall["args"][2]))
     okp = False
     detail = "protection argument is not a per-mode switch result"
     if arms:
@@ -195,8 +200,8 @@ def check_config(ctx, F, tag):
                 y = y[1]
             okw = x[0] == "param" and x[1] == 1 and y[0] == "promoted" and any(d.endswith("MappingMode::Mutable") for d in y[3])
             detail = "write(mode == MappingMode::Mutable): %s" % okw
-        if t[0] == "var":
-            arms = switch_arm_defs(new, t[1])
+        if arm_values(t):
+            arms = arm_values(t)
             if arms:
                 on, m = arms
                 byname = {vnames[k]: v for k, v in m.items() if isinstance(k, int) and k < len(vnames)}
